@@ -414,7 +414,7 @@ func Run(opts *Options) (int, error) {
 						}
 						if bump {
 							patternCache = make(map[string]*Pattern)
-							cache.Clear()
+							cache.Invalidate()
 							inputRevision.bumpMinor()
 						}
 						if command != nil {
